@@ -1529,7 +1529,7 @@ class ImportanceNestedSampler(BaseNestedSampler):
         """Main nested sampling loop."""
         if self.finalised:
             logger.warning("Sampler has already finished sampling! Aborting")
-            return self.log_evidence, self.nested_samples_unit
+            return self.log_evidence, self.samples
         self.sampling_start_time = datetime.datetime.now()
         self.initialise()
         logger.info("Starting the nested sampling loop")
